@@ -1,5 +1,6 @@
 /-
-  Symbolic execution of the method shapes of the translated pastifier (`GeneratedPast.lean`).
+  Symbolic execution of the method shapes of the translated pastifier (`Rtamt/Py/GeneratedPast.lean`):
+  one lemma per shape of body, used by `RtamtProofs/GenPast.lean`.
 -/
 import Rtamt.Py.RunPast
 import RtamtProofs.GenOps
@@ -9,23 +10,182 @@ open Rtamt Val
 
 variable {α : Type}
 
-theorem pos_sub_iff (R : Int) (H : Nat) : (0 < R - (H : Int)) ↔ (0 < R.toNat - H) := by omega
-theorem toNat_sub_nat (R : Int) (H : Nat) : (R - (H : Int)).toNat = R.toNat - H := by omega
+/-- The horizon visitor is defined exactly on the formulas without unbounded future operator, with value `hor`. -/
+theorem hor?_eq (φ : F α) : hor? φ = if φ.bounded then some (hor φ) else none := by
+  induction φ with
+  | var x => rfl
+  | const c => rfl
+  | un op φ ih => cases h1 : φ.bounded <;> simp [hor?, hor, F.bounded, ih, h1]
+  | bin op φ ψ ih1 ih2 =>
+    cases h1 : φ.bounded <;> cases h2 : ψ.bounded <;> simp [hor?, hor, F.bounded, ih1, ih2, h1, h2]
+  | tmp1 op φ ih =>
+    cases h1 : φ.bounded <;> cases op <;> simp [hor?, hor, F.bounded, ih, h1]
+  | tmp2 op φ ψ ih1 ih2 =>
+    cases h1 : φ.bounded <;> cases h2 : ψ.bounded <;> cases op <;> simp [hor?, hor, F.bounded, ih1, ih2, h1, h2]
+  | tb1 op a b φ ih =>
+    cases h1 : φ.bounded <;> cases op <;> simp [hor?, hor, F.bounded, ih, h1]
+  | tb2 op a b φ ψ ih1 ih2 =>
+    cases h1 : φ.bounded <;> cases h2 : ψ.bounded <;> cases op <;> simp [hor?, hor, F.bounded, ih1, ih2, h1, h2]
+
+/-- Symbolic execution of a loop-free body on a concrete store. -/
+macro "past_exec" "[" ls:Lean.Parser.Tactic.simpLemma,* "]" : tactic =>
+  `(tactic| simp [execPS, evalPE, setKey, getKey, List.lookup, bind, Except.bind, pure, Except.pure, ofOpt,
+      mkNodeT1, mkNodeT2, natCast_lt_zero, $ls,*])
+
+/-- the tail `if horizon > 0: node = TimedOnce(node, Interval(horizon, horizon))` against `delay`. -/
+macro "past_delay" R:ident H:ident : tactic =>
+  `(tactic| (
+      by_cases h : ($H : Int) < $R
+      · have h1 : ¬ ($R - ($H : Int) < 0) := by omega
+        have h2 : 0 < Int.toNat $R - $H := by omega
+        simp [h, h1, h2, mkNodeT1, delay, List.lookup]
+      · have h2 : ¬ (0 < Int.toNat $R - $H) := by omega
+        simp [h, h2, delay, List.lookup]))
+
+/-! ### `visitAbs` … `visitHistorically`: one child, `Cls(child)`, delayed -/
 
 def bodyDelay1 (cls : String) : PS :=
   (.seq (.setLoc "node_horizon" (.loc "$node_horizon")) (.seq (.setLoc "remaining_horizon" (.loc "$horizon")) (.seq (.setLoc "horizon" (.sub (.loc "remaining_horizon") (.loc "node_horizon"))) (.seq (.setLoc "child_node" (.visit 0 (.loc "node_horizon"))) (.seq (.setLoc "node" (.mk1 cls (.loc "child_node"))) (.ite (.gt (.loc "horizon") (.int 0)) (.setLoc "node" (.mk2 "TimedOnce" (.loc "node") (.interval (.loc "horizon") (.loc "horizon")))) .skip))))))
 
-theorem call_delay1 (rec : Nat → Int → Except PyErr (F α)) (m : PMethod) (cls : String) (R : Int) (H : Nat)
-    (c n : F α) (hbody : m.body = bodyDelay1 cls) (hret : m.ret = some (.loc "node"))
+theorem call_delay1 (rec : Nat → Int → Except PyErr (F α)) (m : PMethod) (cls : String) (c n : F α) (R : Int) (H : Nat)
+    (hbody : m.body = bodyDelay1 cls) (hret : m.ret = some (.loc "node"))
     (hrec : rec 0 (H : Int) = .ok c) (hmk : mkNode1 cls c = some n) :
     callPast rec m [("$horizon", .int R), ("$node_horizon", .int H)] = .ok (delay (R.toNat - H) n) := by
   simp only [callPast, hbody, hret, bodyDelay1]
-  simp [execPS, evalPE, setKey, getKey, List.lookup, bind, Except.bind, pure, Except.pure, hrec, hmk, ofOpt]
-  by_cases h : (H : Int) < R
-  · have h1 : ¬ (R - (H : Int) < 0) := by omega
-    have h2 : 0 < R.toNat - H := by omega
-    simp [h, h1, h2, mkNodeT1, delay, List.lookup]
-  · have h2 : ¬ (0 < R.toNat - H) := by omega
+  past_exec [hrec, hmk]
+  past_delay R H
+
+/-! ### `visitAddition` … `visitXor`: two children, `Cls(child1, child2)`, delayed -/
+
+def bodyDelay2 (cls : String) : PS :=
+  (.seq (.setLoc "node_horizon" (.loc "$node_horizon")) (.seq (.setLoc "remaining_horizon" (.loc "$horizon")) (.seq (.setLoc "horizon" (.sub (.loc "remaining_horizon") (.loc "node_horizon"))) (.seq (.setLoc "child1_node" (.visit 0 (.loc "node_horizon"))) (.seq (.setLoc "child2_node" (.visit 1 (.loc "node_horizon"))) (.seq (.setLoc "node" (.mk2 cls (.loc "child1_node") (.loc "child2_node"))) (.ite (.gt (.loc "horizon") (.int 0)) (.setLoc "node" (.mk2 "TimedOnce" (.loc "node") (.interval (.loc "horizon") (.loc "horizon")))) .skip)))))))
+
+theorem call_delay2 (rec : Nat → Int → Except PyErr (F α)) (m : PMethod) (cls : String) (c1 c2 n : F α) (R : Int) (H : Nat)
+    (hbody : m.body = bodyDelay2 cls) (hret : m.ret = some (.loc "node"))
+    (hrec1 : rec 0 (H : Int) = .ok c1) (hrec2 : rec 1 (H : Int) = .ok c2) (hmk : mkNode2 cls c1 c2 = some n) :
+    callPast rec m [("$horizon", .int R), ("$node_horizon", .int H)] = .ok (delay (R.toNat - H) n) := by
+  simp only [callPast, hbody, hret, bodyDelay2]
+  past_exec [hrec1, hrec2, hmk]
+  past_delay R H
+
+theorem call_predicate (rec : Nat → Int → Except PyErr (F α)) (cmp : Cmp) (c1 c2 : F α) (R : Int) (H : Nat)
+    (hrec1 : rec 0 (H : Int) = .ok c1) (hrec2 : rec 1 (H : Int) = .ok c2) :
+    callPast rec Gen.Past.visitPredicate [("$horizon", .int R), ("$node_horizon", .int H), ("$operator", .cmp cmp)]
+      = .ok (delay (R.toNat - H) (.bin (.pred cmp) c1 c2)) := by
+  simp only [callPast, Gen.Past.visitPredicate]
+  past_exec [hrec1, hrec2]
+  past_delay R H
+
+theorem call_since (rec : Nat → Int → Except PyErr (F α)) (c1 c2 : F α) (R : Int) (H : Nat)
+    (hrec1 : rec 0 (H : Int) = .ok c1) (hrec2 : rec 1 (H : Int) = .ok c2) :
+    callPast rec Gen.Past.visitSince [("$horizon", .int R), ("$node_horizon", .int H)]
+      = .ok (delay (R.toNat - H) (.tmp2 .since c1 c2)) := by
+  simp only [callPast, Gen.Past.visitSince]
+  past_exec [hrec1, hrec2, mkNode2]
+  past_delay R H
+
+/-! ### leaves -/
+
+theorem call_variable (rec : Nat → Int → Except PyErr (F α)) (x : String) (R : Int) :
+    callPast rec Gen.Past.visitVariable [("$horizon", .int R), ("$node_horizon", .int 0), ("$self", .fml (.var x))]
+      = .ok (delay R.toNat (.var x)) := by
+  simp only [callPast, Gen.Past.visitVariable]
+  past_exec []
+  by_cases h : 0 < R
+  · have h1 : ¬ (R < 0) := by omega
+    simp [h, h1, delay, List.lookup]
+  · have h2 : ¬ (0 < R.toNat) := by omega
     simp [h, h2, delay, List.lookup]
+
+theorem call_constant (rec : Nat → Int → Except PyErr (F α)) (v : α) (R : Int) :
+    callPast rec Gen.Past.visitConstant [("$horizon", .int R), ("$node_horizon", .int 0), ("$self", .fml (.const v))]
+      = .ok (.const v) := by
+  simp only [callPast, Gen.Past.visitConstant]
+  past_exec []
+
+/-! ### `next`, `s_next`: consume one sample of the horizon -/
+
+def bodyNext : PS :=
+  (.seq (.setLoc "horizon" (.sub (.loc "$horizon") (.int 1))) (.setLoc "child_node" (.visit 0 (.loc "horizon"))))
+
+theorem call_next (rec : Nat → Int → Except PyErr (F α)) (m : PMethod) (c : F α) (R : Int) (H : Nat)
+    (hbody : m.body = bodyNext) (hret : m.ret = some (.loc "child_node"))
+    (hrec : rec 0 (R - 1) = .ok c) :
+    callPast rec m [("$horizon", .int R), ("$node_horizon", .int H)] = .ok c := by
+  simp only [callPast, hbody, hret, bodyNext]
+  past_exec [hrec]
+
+/-! ### bounded past operators -/
+
+theorem call_timedHistorically (rec : Nat → Int → Except PyErr (F α)) (c : F α) (a b : Nat) (R : Int) (H : Nat)
+    (hrec : rec 0 (H : Int) = .ok c) :
+    callPast rec Gen.Past.visitTimedHistorically
+        [("$horizon", .int R), ("$node_horizon", .int H), ("$begin", .int a), ("$end", .int b)]
+      = .ok (delay (R.toNat - H) (.tb1 .hist a b c)) := by
+  simp only [callPast, Gen.Past.visitTimedHistorically]
+  past_exec [hrec]
+  past_delay R H
+
+theorem call_timedSince (rec : Nat → Int → Except PyErr (F α)) (c1 c2 : F α) (a b : Nat) (R : Int) (H : Nat)
+    (hrec1 : rec 0 (H : Int) = .ok c1) (hrec2 : rec 1 (H : Int) = .ok c2) :
+    callPast rec Gen.Past.visitTimedSince
+        [("$horizon", .int R), ("$node_horizon", .int H), ("$begin", .int a), ("$end", .int b)]
+      = .ok (delay (R.toNat - H) (.tb2 .since a b c1 c2)) := by
+  simp only [callPast, Gen.Past.visitTimedSince]
+  past_exec [hrec1, hrec2]
+  past_delay R H
+
+theorem call_timedPrecedes (rec : Nat → Int → Except PyErr (F α)) (c1 c2 : F α) (a b : Nat) (R : Int) (H : Nat)
+    (hrec1 : rec 0 (H : Int) = .ok c1) (hrec2 : rec 1 (H : Int) = .ok c2) :
+    callPast rec Gen.Past.visitTimedPrecedes
+        [("$horizon", .int R), ("$node_horizon", .int H), ("$begin", .int a), ("$end", .int b)]
+      = .ok (delay (R.toNat - H) (.tb2 .precedes a b c1 c2)) := by
+  simp only [callPast, Gen.Past.visitTimedPrecedes]
+  past_exec [hrec1, hrec2]
+  past_delay R H
+
+theorem call_timedOnce (rec : Nat → Int → Except PyErr (F α)) (c : F α) (a b : Nat) (R : Int) (H : Nat)
+    (hrec : rec 0 (H : Int) = .ok c) :
+    callPast rec Gen.Past.visitTimedOnce
+        [("$horizon", .int R), ("$node_horizon", .int H), ("$begin", .int a), ("$end", .int b)]
+      = .ok (if R.toNat - H > 0 then .tb1 .once (a + (R.toNat - H)) (b + (R.toNat - H)) c else .tb1 .once a b c) := by
+  simp only [callPast, Gen.Past.visitTimedOnce]
+  past_exec [hrec]
+  by_cases h : (H : Int) < R
+  · have h1 : ¬ ((a : Int) + (R - H) < 0 ∨ (b : Int) + (R - H) < 0) := by omega
+    have h2 : 0 < R.toNat - H := by omega
+    have h3 : ((a : Int) + (R - H)).toNat = a + (R.toNat - H) := by omega
+    have h4 : ((b : Int) + (R - H)).toNat = b + (R.toNat - H) := by omega
+    simp [h, h1, h2, h3, h4, List.lookup]
+  · have h2 : ¬ (0 < R.toNat - H) := by omega
+    simp [h, h2, List.lookup]
+
+/-! ### bounded future operators: consume the bound -/
+
+def bodyTimedFuture (cls : String) : PS :=
+  (.seq (.setLoc "begin" (.loc "$begin")) (.seq (.setLoc "end" (.loc "$end")) (.seq (.setLoc "horizon" (.sub (.loc "$horizon") (.loc "end"))) (.seq (.setLoc "node" (.visit 0 (.loc "horizon"))) (.ite (.gt (.sub (.loc "end") (.loc "begin")) (.int 0)) (.setLoc "node" (.mk2 cls (.loc "node") (.interval (.int 0) (.sub (.loc "end") (.loc "begin"))))) .skip)))))
+
+theorem call_timedFuture (rec : Nat → Int → Except PyErr (F α)) (m : PMethod) (cls : String) (c n : F α)
+    (a b : Nat) (R : Int) (H : Nat)
+    (hbody : m.body = bodyTimedFuture cls) (hret : m.ret = some (.loc "node"))
+    (hrec : rec 0 (R - (b : Int)) = .ok c) (hmk : mkNodeT1 cls 0 (b - a) c = some n) :
+    callPast rec m [("$horizon", .int R), ("$node_horizon", .int H), ("$begin", .int a), ("$end", .int b)]
+      = .ok (if b - a > 0 then n else c) := by
+  simp only [callPast, hbody, hret, bodyTimedFuture]
+  simp [execPS, evalPE, setKey, getKey, List.lookup, bind, Except.bind, pure, Except.pure, ofOpt, hrec]
+  by_cases h : a < b
+  · have h1 : ¬ ((b : Int) - a < 0) := by omega
+    have h2 : 0 < b - a := by omega
+    simp [h, h1, h2, hmk, List.lookup]
+  · have h2 : ¬ (0 < b - a) := by omega
+    simp [h, h2, List.lookup]
+
+theorem call_timedUntil (rec : Nat → Int → Except PyErr (F α)) (c1 c2 : F α) (a b : Nat) (R : Int) (H : Nat)
+    (hrec1 : rec 0 (R - (b : Int)) = .ok c1) (hrec2 : rec 1 (R - (b : Int)) = .ok c2) :
+    callPast rec Gen.Past.visitTimedUntil
+        [("$horizon", .int R), ("$node_horizon", .int H), ("$begin", .int a), ("$end", .int b)]
+      = .ok (.tb2 .precedes a b c1 c2) := by
+  simp only [callPast, Gen.Past.visitTimedUntil]
+  past_exec [hrec1, hrec2]
 
 end Rtamt.Py
